@@ -5,8 +5,10 @@
 //
 // A skeleton is the body of a function printed statement by statement, alpha-normalised: receiver
 // -> R, parameters -> P0,P1,…, locals -> L0,L1,… in order of declaration, labels -> B0,…  Renaming
-// a variable does not change it; any change to the control flow, a comparison, a conversion or an
-// arithmetic operator does.  What the printer does not know is written as "?unrecognised" and
+// a variable does not change it, nor do the rewrites the printer normalises (round 3: `a < b` / `b > a`,
+// `x++` / `x += 1` / `x = x + 1`, the order of the operands of `==` and of `&&` / `||` between operands
+// that can neither panic nor have an effect); any other change to the control flow, a comparison, a
+// conversion or an arithmetic operator does.  What the printer does not know is written as "?unrecognised" and
 // reported through extractErrors; it never stops the extractor.
 package main
 
@@ -80,7 +82,30 @@ func (s *skel) expr(e ast.Expr) string {
 	case *ast.SelectorExpr:
 		return s.expr(e.X) + "." + e.Sel.Name
 	case *ast.BinaryExpr:
-		return "(" + s.expr(e.X) + e.Op.String() + s.expr(e.Y) + ")"
+		// canonical forms (round 3) so that rewrites which cannot change the meaning do not change the
+		// skeleton: `a < b` is printed as `b > a` and `a <= b` as `b >= a`; the operands of `==`, `!=` and
+		// of `&&` / `||` between side-effect-free, panic-free operands are printed in sorted order
+		x, y, op := s.expr(e.X), s.expr(e.Y), e.Op
+		switch op {
+		case token.LSS:
+			x, y, op = y, x, token.GTR
+		case token.LEQ:
+			x, y, op = y, x, token.GEQ
+		case token.EQL, token.NEQ:
+			if pureExpr(e.X) && pureExpr(e.Y) && y < x {
+				x, y = y, x
+			}
+		case token.LAND, token.LOR:
+			if pureExpr(e.X) && pureExpr(e.Y) {
+				var parts []string
+				for _, o := range flattenOp(e, op) {
+					parts = append(parts, s.expr(o))
+				}
+				sort.Strings(parts)
+				return "(" + strings.Join(parts, op.String()) + ")"
+			}
+		}
+		return "(" + x + op.String() + y + ")"
 	case *ast.UnaryExpr:
 		return e.Op.String() + s.expr(e.X)
 	case *ast.StarExpr:
@@ -123,6 +148,51 @@ func (s *skel) expr(e ast.Expr) string {
 	return s.unknown(e, "expression")
 }
 
+// pureExpr: no side effect and no run-time panic possible — identifiers, literals, field selections,
+// comparisons and arithmetic without division, conversions to the basic integer types, len(), and the
+// calls of the two Size predicates.  (No index, slice, dereference or other call.)
+func pureExpr(e ast.Expr) bool {
+	switch e := e.(type) {
+	case *ast.Ident, *ast.BasicLit:
+		return true
+	case *ast.ParenExpr:
+		return pureExpr(e.X)
+	case *ast.SelectorExpr:
+		return pureExpr(e.X)
+	case *ast.UnaryExpr:
+		return (e.Op == token.NOT || e.Op == token.SUB) && pureExpr(e.X)
+	case *ast.BinaryExpr:
+		if e.Op == token.QUO || e.Op == token.REM || e.Op == token.SHL || e.Op == token.SHR {
+			return false
+		}
+		return pureExpr(e.X) && pureExpr(e.Y)
+	case *ast.CallExpr:
+		switch f := e.Fun.(type) {
+		case *ast.Ident:
+			switch f.Name {
+			case "len", "int", "uint", "uint16", "uint8", "int64", "uint64":
+				return len(e.Args) == 1 && pureExpr(e.Args[0])
+			}
+		case *ast.SelectorExpr:
+			if (f.Sel.Name == "HasUnboundedHeight" || f.Sel.Name == "HasUnboundedWidth") && len(e.Args) == 0 {
+				return pureExpr(f.X)
+			}
+		}
+	}
+	return false
+}
+
+// flattenOp lists the operands of a chain of the same associative operator.
+func flattenOp(e ast.Expr, op token.Token) []ast.Expr {
+	if p, ok := e.(*ast.ParenExpr); ok {
+		return flattenOp(p.X, op)
+	}
+	if b, ok := e.(*ast.BinaryExpr); ok && b.Op == op {
+		return append(flattenOp(b.X, op), flattenOp(b.Y, op)...)
+	}
+	return []ast.Expr{e}
+}
+
 func (s *skel) emit(format string, a ...interface{}) {
 	s.out = append(s.out, fmt.Sprintf(format, a...))
 }
@@ -157,8 +227,20 @@ func (s *skel) stmt(st ast.Stmt) {
 	case *ast.ExprStmt:
 		s.emit("%s", s.expr(st.X))
 	case *ast.IncDecStmt:
-		s.emit("%s%s", s.expr(st.X), st.Tok.String())
+		// `x++` is printed as `x+=1`
+		if st.Tok == token.INC {
+			s.emit("%s+=1", s.expr(st.X))
+		} else {
+			s.emit("%s-=1", s.expr(st.X))
+		}
 	case *ast.AssignStmt:
+		// `x = x + e` / `x = x - e` is printed as `x+=e` / `x-=e`
+		if st.Tok == token.ASSIGN && len(st.Lhs) == 1 && len(st.Rhs) == 1 {
+			if b, ok := st.Rhs[0].(*ast.BinaryExpr); ok && (b.Op == token.ADD || b.Op == token.SUB) && pureExpr(st.Lhs[0]) && s.expr(b.X) == s.expr(st.Lhs[0]) {
+				s.emit("%s%s=%s", s.expr(st.Lhs[0]), b.Op.String(), s.expr(b.Y))
+				return
+			}
+		}
 		rhs := s.exprs(st.Rhs) // evaluated before the new names exist
 		var lhs []string
 		for _, l := range st.Lhs {
@@ -695,6 +777,15 @@ func genRound2(c *ex.Ctx, sbp *strings.Builder) {
 	fmt.Fprintf(sbp, "/-- newSurfaceArgs as terms: (function, width, height), in source order. -/\ndef surfaceSizes : List (String × SzArg × SzArg) := [%s]\n\n", strings.Join(terms, ", "))
 	for _, b := range bodies {
 		fmt.Fprintf(sbp, "/-- %s: statement skeleton. -/\ndef %s : List String := %s\n\n", c.Pos(b.fd), b.lean, leanList(skeletonOf(c, b.fd)))
+	}
+
+	// text.hardLines: the line splitter of a Text that is not soft-wrapped (Model.Wrap.textHardLoop)
+	if txt := c.Parse("vxfw/text/text.go"); txt != nil {
+		if fd := ex.FindFunc(txt, "", "hardLines"); fd == nil {
+			c.Fail("text.hardLines not found")
+		} else {
+			fmt.Fprintf(sbp, "/-- %s: statement skeleton. -/\ndef textHardLinesBody : List String := %s\n\n", c.Pos(fd), leanList(skeletonOf(c, fd)))
+		}
 	}
 
 	// list.Dynamic: the constraints handed to the children (every DrawContext literal in Draw and
